@@ -88,6 +88,16 @@ def injections(ver, o, rng):
             oo = copy.deepcopy(o)
             corrupt.get(oo, s.path)["x-unregistered-ext"] = {"some_prop": 1}
             yield "unregistered-extension", s.section, oo
+            # a registered extension's name in another letter case (or with blanks around it) is another, unregistered, name
+            for key_, body in list(v.items())[:1]:
+                for lab, respelt in (("other-letter-case", key_.title() if key_.title() != key_ else key_.upper()), ("upper-case", key_.upper()), ("padded", key_ + " ")):
+                    if respelt == key_ or not isinstance(body, dict):
+                        continue
+                    oo = copy.deepcopy(o)
+                    ext = corrupt.get(oo, s.path)
+                    ext.pop(key_)
+                    ext[respelt] = copy.deepcopy(body)
+                    yield "unregistered-extension:registered-name-" + lab, s.section, oo
     EDEF = "extension-definition--d83fce45-ef58-4c6c-a3f4-1fbc32e98c6e"
     for path, tbl_, section in objects:
         host = corrupt.get(o, path)
@@ -227,6 +237,20 @@ def strict_routes(ver, t, o, tmp):
             stix2.FileSystemSink(d, allow_custom=False).add(json.dumps(o) if text else copy.deepcopy(o))
         rs.append(("FileSystemSink(allow_custom=False).add(dict)", lambda: fs_add(False)))
         rs.append(("FileSystemSink(allow_custom=False).add(json)", lambda: fs_add(True)))
+
+        # the reading side: a directory which holds the content already (written by someone who allowed it), read with customization disallowed
+        def fs_read(kind, op):
+            d = tempfile.mkdtemp(dir=tmp)
+            stix2.FileSystemSink(d, allow_custom=True).add(copy.deepcopy(o))
+            src = stix2.FileSystemStore(d, allow_custom=False) if kind == "store" else stix2.FileSystemSource(d, allow_custom=False)
+            r = src.get(o["id"]) if op == "get" else src.all_versions(o["id"]) if op == "all_versions" else src.query([stix2.Filter("type", "=", o["type"])])
+            if not r:
+                raise ValueError("nothing returned")       # (not handing the content out is a refusal too)
+            return r
+        if "id" in o:
+            for kind in ("store", "source"):
+                for op in ("get", "all_versions", "query"):
+                    rs.append(("FileSystem%s(allow_custom=False).%s" % ("Store" if kind == "store" else "Source", op), lambda kind=kind, op=op: fs_read(kind, op)))
     return rs
 
 
